@@ -3,6 +3,7 @@ package main
 import (
 	"encoding/json"
 	"fmt"
+	"net/url"
 	"os"
 	"path/filepath"
 	"regexp"
@@ -412,6 +413,19 @@ func c05Probe(r *lp.Run, rng *lp.Rand, drv *gc.Driver, s *c05set, L int) {
 			}
 			// near misses
 			probes = append(probes, probe{method: rt.method, path: p + "/", kind: "near"}, probe{method: rt.method, path: strings.TrimSuffix(p, "/"), kind: "near"}, probe{method: rt.method, path: p + "x", kind: "near"})
+			// a slash that is part of a value travels escaped (either hex case) and is never a separator
+			if n > 0 && k < 12 {
+				sargs := append([]string{}, args...)
+				j := rng.Intn(n)
+				if !strings.Contains(sargs[j], "/") {
+					sargs[j] = lp.Pick(rng, []string{"b/c", "/", "x/", "/y", "a/b/c"})
+				}
+				esc := make([]string, n)
+				for i, a := range sargs {
+					esc[i] = strings.ReplaceAll(url.PathEscape(a), "%2F", lp.Pick(rng, []string{"%2F", "%2f"}))
+				}
+				probes = append(probes, probe{method: rt.method, path: tmplInst(rt.tmpl, sargs), raw: tmplInst(rt.tmpl, esc), kind: "slashesc", tmpl: rt.tmpl, args: sargs})
+			}
 			// escaped re-spellings of the same request (C12's equivalence reaches dispatch)
 			for e := 0; e < 2; e++ {
 				raw := respellPath(rng, p)
@@ -475,6 +489,20 @@ func c05Probe(r *lp.Run, rng *lp.Rand, drv *gc.Driver, s *c05set, L int) {
 				r.PropCheck()
 				if a[i] != b[i] {
 					r.Fail(lp.PropFail{Property: "C05", What: "lookup/dispatch behind a path prefix differs from lookup/dispatch without it", Input: map[string]any{"routes": rsetLine(s.routes), "method": pfxProbes[i].method, "path": pfxProbes[i].path, "raw_path": pfxProbes[i].raw, "prefix": "/api"}, Observed: fmt.Sprint(a[i]), Expected: fmt.Sprint(b[i])})
+				}
+			}
+		}
+	}
+	// the empty prefix given explicitly (WithPathPrefix("")) is no prefix
+	ans3, _ := drv.Do(map[string]any{"pkg": s.pkg.Name, "cmd": "batch", "prefix": "$empty", "items": without})
+	if a, ok := ans3["results"].([]any); ok {
+		if b, ok := ans2["results"].([]any); ok {
+			for i := range a {
+				r.Count("emptyprefix "+s.pkg.Name+pfxProbes[i].path+pfxProbes[i].raw, "prefix-empty:"+pfxProbes[i].kind, true)
+				r.PropCheck()
+				if a[i] != b[i] {
+					r.Fail(lp.PropFail{Property: "C05", What: "a server configured with the empty path prefix dispatches differently from one without the option", Input: map[string]any{"routes": rsetLine(s.routes), "method": pfxProbes[i].method, "path": pfxProbes[i].path, "raw_path": pfxProbes[i].raw, "prefix": ""}, Observed: fmt.Sprint(a[i]), Expected: fmt.Sprint(b[i])})
+					break
 				}
 			}
 		}
@@ -631,6 +659,20 @@ func c05Judge(r *lp.Run, s *c05set, p probe, ans string) {
 					fail("the handler's named path parameters are not the arguments of the matched template (bound by name)", sparams, want)
 				}
 			}
+		}
+	}
+	// an escaped slash is not a separator: the matched template has as many segments as the request target,
+	// and where the same request with a letter in place of the slash fits the template, this one arrives too
+	if p.kind == "slashesc" {
+		if dispatched && strings.Count(p.raw, "/") != strings.Count(fPattern, "/") {
+			fail("an escaped slash inside a parameter value is taken for a path separator", fmt.Sprintf("%s args %q", fPattern, fArgs), "a template with "+fmt.Sprint(strings.Count(p.raw, "/"))+" segments, e.g. "+p.tmpl)
+		}
+		plain := make([]string, len(p.args))
+		for i, a := range p.args {
+			plain[i] = strings.ReplaceAll(a, "/", "x")
+		}
+		if fitsArgs(s.routes, p.tmpl, plain) && !dispatched && status != "405" {
+			fail("a template instance whose value holds an escaped slash reaches no template", find+" / "+status, "dispatch to "+p.tmpl+" (or a more specific template) with the slash inside the argument")
 		}
 	}
 	// static wins
